@@ -217,7 +217,7 @@ MachineNext ==
   \/ StartTx \/ QueueBehind \/ EndTx \/ Err \/ SetSchema \/ SetTagsTracers \/ Dispose
   \/ \E g \in Getters : Get(g) \/ MutateReturned(g)
   \/ \E fn \in HelperFns, p \in BOOLEAN : HelperCall(fn, p)
-  \/ \E fn \in {"WaitForAll", "WaitForAny"}, ch \in SeqsUpTo(BOOLEAN, 2), cd \in BOOLEAN :
+  \/ \E fn \in {"WaitForAll", "WaitForAny"}, ch \in SeqsUpTo(BOOLEAN, 4), cd \in BOOLEAN :
        WaitCall(fn, ch, cd)
   \/ \E cls \in ArgClasses : TotalCall(cls)
 
